@@ -61,11 +61,9 @@ def check(ctx):
 
 def oracle(ctx):
     repo = ctx.repo
-    um = repo.module("gaftools.utils", "R16.1")
-    tr = um.consts.get("tag_regex")
-    ty = um.consts.get("types_regex")
-    if not isinstance(tr, ast.Constant) or not isinstance(ty, ast.Dict):
-        raise AnalysisError("R16.1", um.relpath, "the repository's tag grammar (tag_regex / types_regex) is not a constant table any more")
+    from ..core import tag_grammar
+
+    um, _trn, tr, _tyn, ty, _ict = tag_grammar(repo, "R16.1")
     tag_items = relang.flatten(relang.parse(tr.value))
     types = {}
     for k, v in zip(ty.keys, ty.values):
